@@ -134,7 +134,7 @@ def world(prop, test, rule, quick=(12, 200), thorough=(16, 4000), **kw):
 HIST = "generated histories of SI requests and scheduling cycles (10-80 ops) on a generated valid configuration (queues depth<=3, sparse quotas, limits, templates); distinct = hash of the resolved op trace; "
 
 CHECKS["C12"]["assumptions"] = WORLD_ASSUMPTIONS + ["crash points are op boundaries (the shim has absorbed every message of the last step)",
-                                                  "user resolution through OS / LDAP resolvers is outside the generator: applications always carry their groups"]
+                                                  "user resolution through the OS / LDAP resolvers is outside the generator; the forced fallback for a user the core cannot resolve is covered with the test resolver"]
 CHECKS["C01"] = world("C01", "TestC01", HIST + "profile tight-nodes; non-trivial = a checked scheduler binding onto a node that already held allocations, or a checked binding in a history "
     "with an earlier capacity change / drain / foreign allocation")
 CHECKS["C02"] = world("C02", "TestC02", HIST + "profile tight-queues; non-trivial = at least one scheduling decision that raised the usage of a queue on a type its maximum defines "
@@ -188,6 +188,7 @@ CHECKS["C07"] = world("C07", "TestC07", HIST + PRE + "non-trivial = a preemption
 CHECKS["C08"] = world("C08", "TestC08", HIST + PRE + "non-trivial = a queue preemption with at least 2 queues carrying guarantees, or a quota preemption", quick=(14, 180))
 CHECKS["C09"] = world("C09", "TestC09", HIST + "profile reserve (reservation delay 0, small nodes, 30% required-node asks); non-trivial = a reservation was made and one was removed by "
     "something other than a scheduling cycle (ask/app/node removal, RM reported binding)")
+CHECKS["C09"]["runs"].append({"test": "TestC09Preempt", "shards_quick": 8, "checks_quick": 180, "shards_thorough": 8, "checks_thorough": 3000})
 CHECKS["C10"] = world("C10", "TestC10", HIST + "profile churn-apps; non-trivial = an application that visited at least 4 states")
 CHECKS["C10"]["runs"].append({"test": "TestC10Gang", "shards_quick": 6, "checks_quick": 250, "shards_thorough": 8, "checks_thorough": 4000})
 CHECKS["C10"]["rule"] += "; second run: profile gang with frequent releases, non-trivial = an application that visited at least 4 states and a confirmed placeholder replacement"
